@@ -546,7 +546,7 @@ mod inner {
             };
             ArgRangesIter {
                 args: self,
-                cur: 0,
+                cur: self.scope.start,
                 width,
             }
         }
